@@ -250,11 +250,22 @@ func (e *Engine) evalUnary(st *State, n *ast.UnaryExpr) Value {
 				return e.evalCompositeLit(st, cl, true)
 			}
 		}
-		a, ok := e.addrOf(st, n.X)
-		if !ok {
-			e.fail(n, "cannot take address of %s", e.slug(n.X))
+		pl := e.placeOf(st, n.X)
+		if pl.isAddr && pl.key != "" {
+			switch under(pl.typ).(type) {
+			case *types.Struct, *types.Array:
+			default:
+				e.fail(n, "address of a scalar struct field (%s) is outside the subset (typed heaps)", e.slug(n.X))
+			}
 		}
-		return RefV{a}
+		if pl.isAddr {
+			return RefV{pl.addr}
+		}
+		if av, ok := pl.val.(ArrV); ok {
+			return RefV{av.blk}
+		}
+		e.fail(n, "cannot take address of %s", e.slug(n.X))
+		return nil
 	case token.ARROW:
 		e.fail(n, "channel receive is outside the subset")
 	}
@@ -350,18 +361,24 @@ func (e *Engine) evalBinary(st *State, n *ast.BinaryExpr) Value {
 		} else {
 			st.pc = e.name("pc", And(st.pc, Not(l)))
 		}
-		hi, mem, al := st.HI, st.Mem, st.alloc
+		hsave := st.clone()
+		mem, al := st.Mem, st.alloc
 		r := e.asBool(e.eval(st, n.Y), n.Y)
 		// restore path condition but keep obligations' strengthening out of it
 		st.pc = save
-		if st.HI.s != hi.s || st.Mem.s != mem.s || st.alloc.s != al.s {
+		if heapsDiffer(st, hsave) || st.Mem.s != mem.s || st.alloc.s != al.s {
 			g := l
 			if n.Op == token.LOR {
 				g = Not(l)
 			}
-			st.HI = e.name("HI", Ite(g, st.HI, hi))
-			st.Mem = e.name("Mem", Ite(g, st.Mem, mem))
-			st.alloc = e.name("alloc", Ite(g, st.alloc, al))
+			// the right operand ran only under g: merge its effects conditionally
+			rs := st.clone()
+			rs.pc = e.name("pc", And(save, g))
+			hsave.pc = e.name("pc", And(save, Not(g)))
+			m := e.merge([]*State{rs, hsave})
+			if m != nil {
+				st.H, st.epoch, st.Mem, st.alloc, st.ghost = m.H, m.epoch, m.Mem, m.alloc, m.ghost
+			}
 		}
 		if n.Op == token.LAND {
 			return BoolV{And(l, r)}
@@ -369,6 +386,17 @@ func (e *Engine) evalBinary(st *State, n *ast.BinaryExpr) Value {
 		return BoolV{Or(l, r)}
 	}
 	lt := e.typeOf(n.X)
+	if (n.Op == token.EQL || n.Op == token.NEQ) && (e.isNilExpr(n.X) || e.isNilExpr(n.Y)) {
+		other := n.X
+		if e.isNilExpr(n.X) {
+			other = n.Y
+		}
+		isNil := e.isNilValue(e.eval(st, other), n)
+		if n.Op == token.NEQ {
+			return BoolV{Not(isNil)}
+		}
+		return BoolV{isNil}
+	}
 	lv := e.eval(st, n.X)
 	rv := e.eval(st, n.Y)
 	switch n.Op {
@@ -403,6 +431,21 @@ func (e *Engine) evalBinary(st *State, n *ast.BinaryExpr) Value {
 		return BoolV{Ge(a, b)}
 	}
 	return IntV{e.arith(st, n.Op, a, b, typ, e.typeOf(n.Y), n)}
+}
+
+func (e *Engine) isNilValue(v Value, n ast.Node) T {
+	switch x := v.(type) {
+	case SliceV:
+		return Eq(x.blk, I(0))
+	case IfaceV:
+		return Eq(x.ref, I(0))
+	case RefV:
+		return Eq(x.t, I(0))
+	case FuncV:
+		return tFalse
+	}
+	e.fail(n, "comparison of %T with nil", v)
+	return T{}
 }
 
 func (e *Engine) arith(st *State, op token.Token, a, b T, typ, rtyp types.Type, n ast.Node) T {
@@ -619,17 +662,32 @@ type place struct {
 	isAddr bool
 	val    Value
 	typ    types.Type
+	key    string // typed-heap key of the cell(s) at addr ("" = by scalar type)
+}
+
+func (e *Engine) loadPlace(st *State, p place) Value {
+	if !p.isAddr {
+		return p.val
+	}
+	if p.key == "" {
+		return e.loadAt(st, p.addr, p.typ)
+	}
+	return e.loadAtK(st, p.addr, p.typ, p.key)
+}
+
+func (e *Engine) storePlace(st *State, p place, v Value) {
+	if p.key == "" {
+		e.storeAt(st, p.addr, p.typ, v)
+		return
+	}
+	e.storeAtK(st, p.addr, p.typ, v, p.key)
 }
 
 func (e *Engine) stepField(st *State, p place, idx int, n ast.Node) place {
 	t := p.typ
 	if ptr, ok := under(t).(*types.Pointer); ok {
 		var ref T
-		if p.isAddr {
-			ref = e.asInt(e.loadAt(st, p.addr, t), n)
-		} else {
-			ref = e.asInt(p.val, n)
-		}
+		ref = e.asInt(e.loadPlace(st, p), n)
 		e.oblige(st, "nil", e.slug(n), Ne(ref, I(0)), n.Pos(), nil)
 		p = place{addr: ref, isAddr: true, typ: ptr.Elem()}
 		t = ptr.Elem()
@@ -640,7 +698,18 @@ func (e *Engine) stepField(st *State, p place, idx int, n ast.Node) place {
 	}
 	ft := stt.Field(idx).Type()
 	if p.isAddr {
-		return place{addr: Add(p.addr, I(int64(e.fieldOffset(stt, idx)))), isAddr: true, typ: ft}
+		np := place{addr: Add(p.addr, I(int64(e.fieldOffset(stt, idx)))), isAddr: true, typ: ft, key: e.structKey(stt, t) + "." + stt.Field(idx).Name()}
+		if _, isArr := under(ft).(*types.Array); isArr && e.quant == 0 {
+			// an array field's block is owned by exactly this (struct type, field): blocks of different fields differ
+			e.declareUF("blktype", "(declare-fun blktype (Int) Int)")
+			id, ok := e.typeIDs["blk:"+np.key]
+			if !ok {
+				id = len(e.typeIDs) + 1
+				e.typeIDs["blk:"+np.key] = id
+			}
+			e.assume(st, Eq(app(SInt, "blktype", np.addr), I(int64(id))), "typed memory: array field block belongs to its field")
+		}
+		return np
 	}
 	sv, ok := p.val.(StructV)
 	if !ok {
@@ -736,10 +805,7 @@ func (e *Engine) evalSelector(st *State, n *ast.SelectorExpr) Value {
 	switch sel.Kind() {
 	case types.FieldVal:
 		p := e.placeOf(st, n)
-		if p.isAddr {
-			return e.loadAt(st, p.addr, p.typ)
-		}
-		return p.val
+		return e.loadPlace(st, p)
 	case types.MethodVal:
 		recv := e.eval(st, n.X)
 		return FuncV{fn: sel.Obj().(*types.Func), recv: recv}
@@ -1002,8 +1068,27 @@ func (e *Engine) evalForType(st *State, x ast.Expr, target types.Type) Value {
 		// elided type in nested literal
 		return e.evalCompositeLit(st, cl, false)
 	}
+	if e.isNilExpr(x) && target != nil {
+		return e.zero(st, target)
+	}
 	v := e.eval(st, x)
 	return e.convertAssign(st, v, e.typeOf(x), target, x)
+}
+
+func (e *Engine) isNilExpr(x ast.Expr) bool {
+	for {
+		if p, ok := x.(*ast.ParenExpr); ok {
+			x = p.X
+			continue
+		}
+		break
+	}
+	id, ok := x.(*ast.Ident)
+	if !ok {
+		return false
+	}
+	_, isNil := e.pkg.info.Uses[id].(*types.Nil)
+	return isNil
 }
 
 // convertAssign handles implicit conversion on assignment: concrete -> interface.
@@ -1098,4 +1183,16 @@ func (e *Engine) evalTypeAssert(st *State, n *ast.TypeAssertExpr, commaOk bool) 
 		}
 	}
 	return v, okT
+}
+
+func heapsDiffer(a, b *State) bool {
+	if a.epoch != b.epoch || len(a.H) != len(b.H) {
+		return true
+	}
+	for k, v := range a.H {
+		if w, ok := b.H[k]; !ok || w.s != v.s {
+			return true
+		}
+	}
+	return false
 }
